@@ -2099,6 +2099,7 @@ FIO_compressFilename_srcFile(FIO_ctx_t* const fCtx,
     if ( prefs->removeSrcFile  /* --rm */
       && result == 0           /* success */
       && strcmp(srcFileName, stdinmark)  /* exception : don't erase stdin */
+      && UTIL_isRegularFile(dstFileName)  /* a device or a pipe does not keep what was written into it */
       ) {
         /* We must clear the handler, since after this point calling it would
          * delete both the source and destination files.
@@ -2937,7 +2938,8 @@ static int FIO_decompressSrcFile(FIO_ctx_t* const fCtx, FIO_prefs_t* const prefs
     }
     if ( prefs->removeSrcFile  /* --rm */
       && (result==0)      /* decompression successful */
-      && strcmp(srcFileName, stdinmark) ) /* not stdin */ {
+      && strcmp(srcFileName, stdinmark)  /* not stdin */
+      && (dstFileName != NULL) && UTIL_isRegularFile(dstFileName) ) /* a device or a pipe does not keep what was written into it */ {
         /* We must clear the handler, since after this point calling it would
          * delete both the source and destination files.
          */
